@@ -3,6 +3,7 @@ CONSTANTS
   N = 3
   C = 2
   CountFirst = TRUE
+  EarlyAccept = FALSE
 INVARIANT Safety
 PROPERTY Terminates
 CHECK_DEADLOCK FALSE
